@@ -2,6 +2,7 @@ package main
 
 import (
 	"bufio"
+	"context"
 	"bytes"
 	"encoding/json"
 	"flag"
@@ -162,9 +163,13 @@ func solverDiffOne(prop, tier, verif string) (*sdResult, error) {
 			go func(j job) {
 				defer wg.Done()
 				defer func() { <-sem }()
-				c := exec.Command(s.argv[0], s.argv[1:]...)
+				// a secondary solver gets ten minutes per log; what it has not answered by then is counted as unknown
+				cctx, ccancel := context.WithTimeout(context.Background(), 10*time.Minute)
+				c := exec.CommandContext(cctx, s.argv[0], s.argv[1:]...)
 				c.Stdin = bytes.NewReader(append([]byte(s.pre), j.script...))
 				outb, _ := c.CombinedOutput()
+				timedOut := cctx.Err() != nil
+				ccancel()
 				var got []string
 				sawErr := false
 				for _, l := range strings.Split(string(outb), "\n") {
@@ -178,6 +183,11 @@ func solverDiffOne(prop, tier, verif string) (*sdResult, error) {
 				}
 				mu.Lock()
 				defer mu.Unlock()
+				if timedOut && !sawErr && len(got) < len(j.verdicts) {
+					for len(got) < len(j.verdicts) {
+						got = append(got, "timeout")
+					}
+				}
 				if sawErr || len(got) != len(j.verdicts) {
 					// the solver does not accept part of this log (e.g. a string operator it lacks): nothing is concluded
 					st.Unsupported++
